@@ -404,15 +404,18 @@ impl Model for DefaultModel {
 
     fn to_text(&self) -> String {
         let mut token_patterns = HashMap::new();
-        let p_pattern = regex::Regex::new(r"^p_").unwrap();
-        let r_pattern = regex::Regex::new(r"^r_").unwrap();
+        // r_sub -> r.sub, p2_act -> p2.act: every definition of the request
+        // and policy sections, not only the unsuffixed ones
+        let token_pattern = regex::Regex::new(r"^([rp]\d*)_").unwrap();
 
-        for ptype in ["r", "p"] {
-            if let Some(assertion) = self.model.get(ptype) {
-                for token in &assertion[ptype].tokens {
-                    let new_token = p_pattern.replace_all(token, "p.");
-                    let new_token = r_pattern.replace_all(&new_token, "r.");
-                    token_patterns.insert(token.clone(), new_token.to_string());
+        for sec in ["r", "p"] {
+            if let Some(assertions) = self.model.get(sec) {
+                for assertion in assertions.values() {
+                    for token in &assertion.tokens {
+                        let new_token = token_pattern.replace(token, "${1}.");
+                        token_patterns
+                            .insert(token.clone(), new_token.to_string());
+                    }
                 }
             }
         }
@@ -430,12 +433,13 @@ impl Model for DefaultModel {
 
         let write_string = |sec: &str, s: &mut String| {
             if let Some(assertions) = self.model.get(sec) {
-                for (_ptype, assertion) in assertions {
+                for (ptype, assertion) in assertions {
                     let mut value = assertion.value.clone();
                     for (token_pattern, new_token) in &token_patterns {
                         value = value.replace(token_pattern, new_token);
                     }
-                    s.push_str(&format!("{} = {}\n", sec, value));
+                    // the definition's own key (r2, m2, ...), not the section
+                    s.push_str(&format!("{} = {}\n", ptype, value));
                 }
             }
         };
